@@ -15,7 +15,9 @@
    arithmetic and comparisons to linear forms.  group_by_topic_and_partition is recognised as a whole (dict-of-dicts
    loop) and means Model.Requests.group_by_topic_and_partition. *)
 From Coq Require Import String.
-From AV Require Import Base.Util Model.Prim Model.Requests Model.UtilDSL Model.UtilAst Proofs.UtilDSLSound.
+From Coq Require Import QArith Qminmax.
+From AV Require Import Base.Util Model.Prim Model.Requests Model.UtilDSL Model.UtilAst Proofs.UtilDSLSound
+     Model.FetchGrow Model.GrowDSL Model.GrowAst Proofs.GrowDSLSound.
 Local Open Scope Z_scope.
 
 Theorem C12gen_write_int_string : forall s, run ast_write_int_string [vb s] = lift (write_int_string s).
@@ -62,9 +64,37 @@ Proof. exact relative_unpack_sound. Qed.
 Print Assumptions C12gen_relative_unpack.
 
 Theorem C12gen_group_by_topic_and_partition : forall l,
-  grun ast_group_by_topic_and_partition l = group_by_topic_and_partition (rtext "topic") (rint "partition") l.
+  UtilDSL.grun ast_group_by_topic_and_partition l = group_by_topic_and_partition (rtext "topic") (rint "partition") l.
 Proof. exact group_by_sound. Qed.
 Print Assumptions C12gen_group_by_topic_and_partition.
+
+(* ---- the consumer's pure arithmetic (afkak/consumer.py), second translator tie: harness/py2grow.py symbolically
+   executes (1) the `except ConsumerFetchSizeTooSmall` handler of Consumer._handle_fetch_response and (2) the statements of
+   Consumer._retry_fetch that update self.retry_delay into the decision trees of Model/GrowDSL.v, per run, and Coq checks
+   them against Model/GrowAst.v (gen_growth = ast_growth, gen_delay = ast_delay, gen_resets = ast_resets).
+   RGrow b = "self.buffer_size becomes b and the handler falls through to the refetch", RFail = "errback of the start
+   Deferred and return".  Trusted: the translator's reading of the handler (logging and the construction of the Failure
+   ignored, attribute reads as the two variables, products with a per-path constant as linear forms). *)
+
+(* the growth branch computes exactly the rule the C12_consumer_* theorems are stated on (Model.FetchGrow.grow, which is
+   Model.Consumer.grow_buffer by C12_grow_is_consumer_grow): for every buffer size and every maximum or None *)
+Theorem C12gen_growth : forall buf mx, grun_tree ast_growth buf mx = grow_result (grow buf mx).
+Proof. exact growth_sound. Qed.
+Print Assumptions C12gen_growth.
+
+(* the retry-delay update is d -> min(d * F, retry_max_delay) with F the constant written in the source (1.20205 as an
+   exact rational), and F > 1: one step of the recurrence whose closed form is C14_delay_closed_form *)
+Theorem C12gen_delay_step : forall d m : Q,
+  (drun ast_delay d m == Qmin (d * source_factor) m)%Q /\ (1 < source_factor)%Q.
+Proof. exact delay_sound. Qed.
+Print Assumptions C12gen_delay_step.
+
+(* every other assignment to self.retry_delay in class Consumer: the initial value in __init__ and the two resets to
+   retry_init_delay after a successful offset / fetch answer *)
+Theorem C12gen_delay_resets :
+  ast_resets = [("__init__", RFloatInitArg); ("_handle_fetch_response", RInitDelay); ("_handle_offset_response", RInitDelay)]%string.
+Proof. exact resets_sound. Qed.
+Print Assumptions C12gen_delay_resets.
 
 (* non-vacuity: the terms run *)
 Example gen_runs :
